@@ -383,6 +383,20 @@ impl ProcfsHandle {
             Ok(_) => (),
             // A detected attack must not be mistaken for "not a symlink".
             Err(err) if err.is_safety_violation() => return Err(err),
+            // Only "this is not a symlink" (readlinkat(2) says EINVAL, or ENOENT
+            // for an empty path on a non-symlink) or "there is nothing there"
+            // (where the open below reports the same error) may take the
+            // O_NOFOLLOW path. Any other failure (ENOMEM, EMFILE, EACCES, ...)
+            // says nothing about the type of the target: falling back to an
+            // O_NOFOLLOW open would hand out the link itself for O_PATH.
+            Err(err)
+                if !matches!(
+                    err.kind(),
+                    ErrorKind::OsError(Some(libc::EINVAL)) | ErrorKind::OsError(Some(libc::ENOENT))
+                ) =>
+            {
+                return Err(err)
+            }
             Err(_) => return self.open(base, subpath, oflags).map(File::from),
         }
 
